@@ -51,6 +51,7 @@ type entryPoint struct {
 	File  string   `json:"file"`
 	Func  string   `json:"func"`
 	Line  int      `json:"line"`
+	Via   []string `json:"via"` // declarations that use the entry point's function as a value
 	FB    bool     `json:"fb_option"`
 	Flags []string `json:"flags"`
 	IR    *node    `json:"ir"`
@@ -325,6 +326,21 @@ func holds(clause string, env envT, tr []string) bool {
 	return false
 }
 
+// notInlined: the term has a hole where a same-package helper that matters could not be
+// inlined by the translator.  What the interpreter computes on such a term says nothing about
+// the code: the generated obligation breaks (Unknown), but no clause failure is reported as a
+// failing input — only the dynamic run of the real adapter can provide one.
+func notInlined(n *node) []string {
+	if n == nil {
+		return nil
+	}
+	var out []string
+	if n.Op == "Unknown" && strings.HasPrefix(n.Src, "not inlined: ") {
+		out = append(out, n.Src)
+	}
+	return append(append(out, notInlined(n.A)...), notInlined(n.B)...)
+}
+
 func allEnvs(nflags int, fbOption bool) []envT {
 	var out []envT
 	for _, b := range []bool{false, true} {
@@ -418,6 +434,14 @@ func main() {
 		rep.Count("static/environments", len(envs))
 		firstFail := map[string]bool{}
 		unknownSeen := false
+		if holes := notInlined(ep.IR); len(holes) > 0 {
+			rep.Count("static/entry_points_with_helpers_not_inlined", 1)
+			rep.Notes = append(rep.Notes, fmt.Sprintf("%s: helper not inlined by the translator (%s): the term is incomplete, clauses not evaluated on it", sig, strings.Join(holes, " | ")))
+			if verbose {
+				fmt.Printf("entry point %s: %v\n", sig, holes)
+			}
+			continue
+		}
 		for _, env := range envs {
 			tr, unk := run(ep, env)
 			rep.Evaluations += len(clauses)
